@@ -218,12 +218,13 @@ def run(tier, seed):
     v = Verdict(PID, tier, seed)
     jobs = []
     if tier == 'quick':
+        # (TLC needs about 10 ms per transition of Trim.tla: two (inputs,
+        # outputs) choices per graph keep the quick tier near two minutes)
         for i, (name, src) in enumerate([('trimex', 'NoData'), ('trimex', 'Stored'),
                                          ('nested', 'NoData'), ('range', 'Stored'),
                                          ('grid', 'NoData'), ('alias', 'NoData'),
-                                         ('blankin', 'NoData'), ('trimex', 'NoData'),
-                                         ('cse', 'NoData')]):
-            jobs.append((name, src, ('yml', 'json', 'pkl')[i % 3], 7, seed + i))
+                                         ('blankin', 'NoData'), ('cse', 'NoData')]):
+            jobs.append((name, src, ('yml', 'json', 'pkl')[i % 3], 2, seed + i))
     else:
         k = 0
         for name in ('trimex', 'nested', 'range', 'grid', 'alias', 'chain', 'cse', 'blankin'):
